@@ -1,31 +1,31 @@
 SPECIFICATION Spec
 CONSTANTS
-  MaxStmts = 4
+  MaxStmts = 3
   MaxDepth = 3
   MaxUnits = 1
-  MaxVar = 1
-  UnitKinds <- ExhUnits
-  ConKinds <- NestCons
-  SpecKinds <- ExhSpec
-  SimpleV <- Set1
+  MaxVar = 9
+  UnitKinds <- SubOnly
+  ConKinds <- SweepCons
+  SpecKinds <- Empty
+  SimpleV <- SimpleAll
   DeclV <- Set1
   UseV <- Set1
   FormatV <- Set1
   CompV <- Set1
   TbindV <- Set1
-  NameChoices <- Set01
-  EndForms <- Set02
+  NameChoices <- Set1
+  EndForms <- Set1
   LabelStmts = FALSE
-  Contains = TRUE
-  PKinds <- KStruct
+  Contains = FALSE
+  PKinds <- KMut
   MaxEdits = 1
   InsSet <- InsSmall
   MinEdits = 0
   Randomised = FALSE
-  DumpMod = 1
+  DumpMod = 5
   NRepl = 17
-  RichOnly = FALSE
-  MaxRich <- Unlimited
+  RichOnly = TRUE
+  MaxRich = 1
   NCmtCls = 8
   NCppForms = 18
   NGarb = 3
